@@ -63,6 +63,9 @@ struct VmWorld : HookSink {
   bool since_reset_clean = true;  // no instruction executed since construction / reset
   int resets_done = 0;
   int stopped_site = -1;          // pc of the site the machine stopped at and has not left since
+  // snapshot / restore: a copy of the machine taken at some instant and assigned back later (model state saved alongside)
+  std::unique_ptr<VM> snap_vm;
+  struct SnapModel { size_t t; std::set<Loc> enabled; bool stepping, since_reset_clean; int resets_done, stopped_site; } snap_model{};
   // monitor used while the library runs VM::execute()
   bool mon_on = false;
   size_t mon_t = 0, mon_stop_t = 0;
@@ -454,6 +457,20 @@ struct VmWorld : HookSink {
   }
   bool at_halt(size_t tt) const { return G.finished && tt == G.len() - 1; }
 
+  // control for C17: a newly constructed machine given the model's breakpoints and stepping flag, advanced to boundary `from`
+  // instruction by instruction and then resumed - does it stop at boundary `expect`?
+  bool fresh_machine_stops_at(size_t from, size_t expect) {
+    bool keep = mon_on; mon_on = false;
+    VM fresh(prog);
+    for (auto &l : enabled) fresh.setBreakPoint(l.file, l.line, true);
+    fresh.setSteppingMode(stepping);
+    for (size_t k = 0; k < from; k++) fresh.executeSingle();
+    fresh.execute();
+    bool ok = expect < G.len() && VerifAccess::ip(fresh) == G.ip[expect] && exec_state_hash(fresh) == G.h[expect];
+    mon_on = keep;
+    return ok;
+  }
+
   void on_point(int site, long a, long) override {
     if (site != Theo::verif::VM_STEP || !mon_on) return;
     // entry of executeSingle inside VM::execute(): we are at boundary mon_t
@@ -468,6 +485,8 @@ struct VmWorld : HookSink {
       // with stepping on, the next site executed is where the run stops: passing it means a line was not visited
       if (stepping && c07_applicable && sites.count(G.ip[mon_stop_t]))
         ctx.check(false, "C07", "stepping_visits_exact_lines", "stepping is on, but execute() passed the site at step " + std::to_string(mon_stop_t) + " (" + loc_str(sites[G.ip[mon_stop_t]]) + ") without stopping");
+      if (resets_done > 0 && fresh_machine_stops_at(t, mon_stop_t + 1))
+        ctx.check(false, "C17", "history_after_reset_as_fresh", "after " + std::to_string(resets_done) + " reset(s) execute() ran past step " + std::to_string(mon_stop_t) + " (" + (sites.count(G.ip[mon_stop_t]) ? loc_str(sites[G.ip[mon_stop_t]]) : std::string("?")) + "), where a newly constructed machine with the same breakpoints stops");
       ctx.check(false, "C06", "resume_stops_at_first_site", "execute() ran past the first requested stop (step " + std::to_string(mon_stop_t) + ", site " + std::to_string(G.ip[mon_stop_t]) + ")");
       ctx.abort_run();
     }
@@ -740,6 +759,7 @@ struct VmWorld : HookSink {
           if (t == t0) break;
         }
       } else if (op.k == "bp") do_bp(locations[(size_t)op.a % nloc], op.b != 0, "bp");
+      else if (op.k == "bploc") do_bp(Loc{op.s, (int)op.a}, op.b != 0, "bp");
       else if (op.k == "bpcur") {
         BreakPoint cur = vm->getCurrentBreak();
         if (cur.line != -1) { ctx.stats.inc("fault_bp_toggle_current_line"); do_bp(to_loc(cur), op.b != 0, "bpcur"); }
@@ -755,6 +775,21 @@ struct VmWorld : HookSink {
         check_enabled_set("after setSteppingMode"); check_location_while_stopped("after setSteppingMode"); check_position("after setSteppingMode");
       } else if (op.k == "reset") do_reset();
       else if (op.k == "inspect") do_inspect();
+      else if (op.k == "snap") {
+        set_phase(PH_DEBUGGER);
+        snap_vm = std::make_unique<VM>(*vm);
+        snap_model = {t, enabled, stepping, since_reset_clean, resets_done, stopped_site};
+        ctx.ev("snap", (long long)t);
+        ctx.stats.inc("fault_snapshot_taken");
+        check_boundary(*vm, "after copying the machine"); check_position("after copying the machine");
+      } else if (op.k == "restore" && snap_vm) {
+        set_phase(PH_DEBUGGER);
+        if (VerifAccess::depth(*vm) > 0) ctx.stats.inc("fault_snapshot_restored_onto_running_machine");
+        *vm = *snap_vm;
+        t = snap_model.t; enabled = snap_model.enabled; stepping = snap_model.stepping; since_reset_clean = snap_model.since_reset_clean; resets_done = snap_model.resets_done; stopped_site = snap_model.stopped_site;
+        ctx.ev("restore", (long long)t);
+        check_boundary(*vm, "after assigning a snapshot back"); check_enabled_set("after assigning a snapshot back"); check_code_integrity("after assigning a snapshot back"); check_position("after assigning a snapshot back");
+      }
       if (ctx.violated) break;
     }
     // C01 "however the run was driven": a session that reached the end shows the reference's values
@@ -810,6 +845,14 @@ struct VmWorld : HookSink {
     }
     ctx.stats.inc("accepted");
     prog = cr.code;
+    if (knob("print_first", 0)) {
+      // printing the program is an inspection: the object handed to the machines afterwards must be what the compiler returned
+      set_phase(PH_LOAD);
+      std::ostringstream listing;
+      prog.disassemble(listing);
+      set_phase(PH_HARNESS);
+      ctx.stats.inc("fault_program_listed_before_use");
+    }
     for (auto &kv : prog.line_info) sites[kv.first] = to_loc(kv.second);
     for (auto &kv : prog.potential_breaks) avail.push_back(to_loc(kv.first));
     std::sort(avail.begin(), avail.end());
@@ -866,20 +909,31 @@ void random_history(Rng &rng, std::vector<Op> &ops, int n, bool allow_reset, boo
   // swarm: per-run op weights
   int w_step = (int)rng.range(1, 6), w_exec = (int)rng.range(1, 5), w_bp = (int)rng.range(0, 5), w_bpcur = (int)rng.range(0, 2),
       w_clear = (int)rng.range(0, 2), w_mode = (int)rng.range(0, 3), w_reset = allow_reset ? (int)rng.range(0, 2) : 0, w_inspect = (int)rng.range(0, 3);
+  int w_snap = rng.chance(1, 3) ? 1 : 0;
   if (heavy_debug) { w_bp += 2; w_mode += 1; }
-  int total = w_step + w_exec + w_bp + w_bpcur + w_clear + w_mode + w_reset + w_inspect;
+  int total = w_step + w_exec + w_bp + w_bpcur + w_clear + w_mode + w_reset + w_inspect + w_snap;
+  Op last_on;
   for (int i = 0; i < n; i++) {
     int w = (int)rng.below(total);
     Op o;
     if ((w -= w_step) < 0) { o.k = "step"; o.a = rng.chance(1, 3) ? rng.range(1, 40) : rng.range(1, 6); }
     else if ((w -= w_exec) < 0) { o.k = "exec"; o.a = rng.range(1, 30); }
-    else if ((w -= w_bp) < 0) { o.k = "bp"; o.a = (long long)rng.below(64); o.b = rng.chance(3, 4); }
+    else if ((w -= w_bp) < 0) { o.k = "bp"; o.a = rng.chance(1, 4) ? (long long)rng.below(3) : (long long)rng.below(64); o.b = rng.chance(3, 4); }
     else if ((w -= w_bpcur) < 0) { o.k = "bpcur"; o.b = rng.chance(1, 2); }
     else if ((w -= w_clear) < 0) { o.k = "clear"; }
     else if ((w -= w_mode) < 0) { o.k = "stepmode"; o.a = rng.chance(1, 2); }
     else if ((w -= w_reset) < 0) { o.k = "reset"; }
+    else if ((w -= w_snap) < 0) { o.k = rng.chance(1, 2) ? "snap" : "restore"; }
     else { o.k = "inspect"; }
     ops.push_back(o);
+    if (o.k == "bp" && o.b) last_on = o;
+    // what a front end does after a reset or a clear: enable the same line again and resume
+    if ((o.k == "reset" || o.k == "clear") && last_on.k == "bp" && rng.chance(1, 2)) {
+      ops.push_back(last_on);
+      Op e; e.k = "exec"; e.a = rng.range(1, 30); ops.push_back(e);
+    }
+    // ... and a breakpoint is often followed by a resume
+    if (o.k == "bp" && o.b && rng.chance(1, 3)) { Op e; e.k = "exec"; e.a = rng.range(1, 30); ops.push_back(e); }
   }
 }
 
@@ -908,6 +962,8 @@ Plan gen_vm_plan(const std::string &prop, Rng &rng, long long sub, const std::st
   Layout lay;
   lay.seed = rng.next();
   gp.loop_back_head = (lay.seed >> 13) % 3 == 0 ? 30 : 0;
+  gp.tail_after_stop = (lay.seed >> 35) % 5 == 0 ? 50 : 0;
+  gp.label_on_goto = (lay.seed >> 45) % 3 == 0;
   lay.style = rng.chance(2, 5) ? 0 : (rng.chance(2, 3) ? 1 : 2);
   lay.nfiles = rng.chance(1, 2) ? 1 : (int)rng.range(2, thorough ? 5 : 3);
   lay.spelling = (int)rng.below(4);
@@ -1025,8 +1081,19 @@ Plan gen_vm_plan(const std::string &prop, Rng &rng, long long sub, const std::st
   p.proj.ast = ast;
   p.proj.layout = lay;
   p.knobs["alias_locs"] = 1;
+  if ((lay.seed >> 31) % 4 == 0) p.knobs["print_first"] = 1;
   render(p.proj);
 
+  if ((mode == "history" || mode == "to_end") && allow_reset && !p.proj.ast.main.empty() && (lay.seed >> 39) % 6 == 0) {
+    // the most common session there is: a breakpoint on the first statement of the main program, run, restart, same breakpoint, run
+    auto it = p.proj.stmt_line.find(p.proj.ast.main[0].id);
+    if (it != p.proj.stmt_line.end()) {
+      Op b; b.k = "bploc"; b.s = it->second.file; b.a = it->second.line; b.b = 1;
+      Op e; e.k = "exec"; e.a = 20;
+      Op r; r.k = (lay.seed >> 43) % 3 == 0 ? "clear" : "reset";
+      p.ops.push_back(b); p.ops.push_back(e); p.ops.push_back(r); p.ops.push_back(b); p.ops.push_back(e);
+    }
+  }
   if (mode == "to_end") {
     random_history(rng, p.ops, (int)rng.range(0, nops / 2), allow_reset, heavy);
     // last segment: no reset, run to the end
